@@ -439,6 +439,13 @@ def poison_results(tree, typed, kinds=("a", "zz")):
             if name not in ALIAS_OK:
                 return f"{name} of {who} returned an internal child list (the caller owns the result of this query)"
             return None
+        alien = [x for x in r if getattr(x, "_tree", None) is not tree]
+        if alien:
+            # a list that an earlier caller mutated came back: one shared object is handed out to everybody.  The
+            # foreign entries are taken out again so that the shared object cannot grow without bound during a run.
+            r[:] = [x for x in r if getattr(x, "_tree", None) is tree]
+            return (f"{name} of {who} returned a list that contains {len(alien)} node(s) of ANOTHER tree: the list object is shared "
+                    f"with an earlier caller who modified the result it had received")
         r.append(foreign)
         r.insert(0, foreign)
         if len(r) > 2:
